@@ -186,7 +186,11 @@ def get_comment(
                 line.replace("\\", "\\\\").replace('"""', '\\"\\"\\"') for line in lines
             ]
             if lines and lines[-1].endswith('"'):
-                lines[-1] = lines[-1][:-1] + '\\"'
+                body = lines[-1][:-1]
+                # a quote that the replacement above already escaped (odd number of
+                # backslashes in front of it) must not get a second backslash
+                if (len(body) - len(body.rstrip("\\"))) % 2 == 0:
+                    lines[-1] = body + '\\"'
 
             # This is a field, message, enum, service, or method
             if len(lines) == 1 and len(lines[0]) < 79 - indent - 6:
